@@ -34,7 +34,10 @@ def _lift1(ex, f, v, kind='real'):
         out.mask_id = getattr(v, 'mask_id', None)
         return out
     if isinstance(v, SArr):
-        return SArr(v.shape, lambda idx, g=snap(v): f(g(idx)), kind)
+        out = SArr(v.shape, lambda idx, g=snap(v): f(g(idx)), kind)
+        if kind != 'bool' and snap_finite(v) is not None:
+            out.finite = snap_finite(v)       # NaN propagates through elementwise functions
+        return out
     if isinstance(v, SSeq):
         return SSeq(v.length, lambda i, g=v.fn: f(g(i)), kind)
     return f(v)
@@ -432,6 +435,23 @@ def np_copy(ex, args, kw, st):
     return v
 
 
+def np_broadcast_to(ex, args, kw, st):
+    v, shape = args[0], args[1]
+    shape = tuple(shape)
+    if isinstance(v, SArr):
+        if v.ndim != len(shape):
+            raise Unsupported('np.broadcast_to across dimensions')
+        # same rank: numpy requires equal sizes (or size 1) per axis; equal sizes are assumed
+        # here and checked as an obligation
+        for a, b in zip(v.shape, shape):
+            st.check('broadcast_to: array already has the requested shape',
+                     num_term(a) == num_term(b))
+        return v
+    if is_num(v):
+        return SArr(shape, lambda idx, v=v: v, 'real' if is_reallike(v) else 'int')
+    raise Unsupported('np.broadcast_to of this value')
+
+
 def np_atleast_2d(ex, args, kw, st):
     v = args[0]
     if isinstance(v, SArr) and v.ndim == 2:
@@ -597,7 +617,14 @@ def np_array(ex, args, kw, st):
             def fn2(idx, rows=rows):
                 i, j = concrete(idx[0]), concrete(idx[1])
                 if i is None or j is None:
-                    raise Unsupported('symbolic index into literal 2-D array')
+                    r = rows[-1][-1]
+                    for a in range(len(rows) - 1, -1, -1):
+                        for b in range(len(rows[a]) - 1, -1, -1):
+                            if (a, b) == (len(rows) - 1, len(rows[-1]) - 1):
+                                continue
+                            r = ex.ite(z3.And(num_term(idx[0]) == a, num_term(idx[1]) == b),
+                                       rows[a][b], r)
+                    return r
                 return rows[i][j]
             return SArr((len(rows), len(rows[0])), fn2, 'real')
     raise Unsupported('np.array of this value')
@@ -796,7 +823,7 @@ TABLE = {
     'np.count_nonzero': np_count_nonzero, 'np.sum': np_sum, 'np.nansum': np_sum, 'np.any': np_any, 'np.all': np_all,
     'np.diff': np_diff, 'np.argmax': np_argmax_first_true,
     'PchipInterpolator': p_interp('PchipInterpolator'), 'np.ndim': np_ndim,
-    'forall_real': cl_forall_real, 'np.atleast_2d': np_atleast_2d, 'np.clip': np_clip, 'spline': cl_uf('spline'),
+    'forall_real': cl_forall_real, 'np.broadcast_to': np_broadcast_to, 'np.atleast_2d': np_atleast_2d, 'np.clip': np_clip, 'spline': cl_uf('spline'),
     'np.deg2rad': p_uf1('deg2rad'), 'deg2rad_': cl_uf('deg2rad'), 'exp_': cl_uf('exp'),
     'erf_': cl_uf('erf'), 'sin_': cl_uf('sin'), 'cos_': cl_uf('cos'), 'sqrt_': cl_uf('sqrt'), 'asin_': cl_uf('asin'),
     'pi_': None,
